@@ -23,7 +23,7 @@
         quiescence without error nothing is pending (no head is left behind or
         below the store head); C03's theorems cover contiguity and provenance. *)
 From Coq Require Import List.
-From GH Require Import Base.Prelude Model.Verify Model.Ranges Model.Syncer Proofs.RangesP Proofs.SyncerP Proofs.SyncerInvP.
+From GH Require Import Base.Prelude Model.Verify Model.Ranges Model.Syncer Proofs.RangesP Proofs.SyncerP Proofs.SyncerInvP Proofs.SyncerLiveP.
 
 Section c07.
 Variables (drift : Z) (tv : hdr -> hdr -> tvres) (ch : N -> hdr).
@@ -38,20 +38,18 @@ Hypothesis Hch : forall n, h_height (ch n) = n.
     (C07_next_head_resumes) - ends with: nothing pending, Store head = cache =
     the newest verified head, State without error and finished, SyncWait
     returning, the store being the true chain tail..head.
-    Partial only in this: the histories have atomic learner calls.  (Until /repo
-    4d8c5ce + 77026ec the statement was false for interleaved learner calls: a
-    verifier call preempted between setLocalHead's already-synced check and
-    pending.Add could make the loop slice out of range or leave a head below
-    the store head for good; both are now excluded for every schedule by
-    C07_no_panic_any_schedule and C07_quiescent_nothing_pending.)
-    The restriction cannot be dropped yet.  On /repo dd38a4c the statement was
-    false for interleaved learner calls because of syncStore.Append's
-    pass-through (finding F23, repaired in 7d16f07: C07_straddling_range_example,
-    C07_straddling_answer_example below).  On 7d16f07 it still is, because of a
-    lost update on the shim's head pointer between concurrent Appends
-    (C07_shim_lost_update_counterexample below; replayed on the real code by
-    harness/c03/straddle_test.go). *)
-Theorem C07_reaches_target_partial : forall (tail : N) (k : nat) (es : list hev) (g : N -> N -> ganswer),
+    This is the statement for histories with ATOMIC learner calls, on the finer
+    machine [step] (every program counter of an Append a step of its own); it
+    allows getter errors anywhere and counts the range requests.  The statement
+    for interleaved learner calls is C07_reaches_target below (machine as of
+    /repo 40dc6a8).  History: the interleaved form was false until /repo
+    4d8c5ce + 77026ec (a head added below the store head stayed for good; a
+    slice out of range), until 7d16f07 (finding F23: a list straddling the
+    shim's head was passed through and the head left behind) and until 40dc6a8
+    (finding F24: lost update on the shim's head between concurrent Appends);
+    each defeating schedule is a corpus case of the checks and an Example
+    below. *)
+Theorem C07_reaches_target_atomic_calls : forall (tail : N) (k : nat) (es : list hev) (g : N -> N -> ganswer),
   tail + N.of_nat k + 1 < two64 ->
   let c0 := init_cfg tail (crun ch tail (S k)) in
   honest_run drift tv ch 0 c0 es -> honest_getter ch g ->
@@ -228,32 +226,150 @@ Example C07_straddling_answer_example :
   cx_view c = (21, 21, 21, false, [], LIdle, true, None, 21, true).
 Proof. vm_compute. split; reflexivity. Qed.
 
-(** *** the interleaved form is still false on /repo 7d16f07: a lost update on the shim's head
+(** *** a lost update on the shim's head (finding F24, repaired in /repo 40dc6a8)
 
-    syncStore.Append loads its head, checks the list against it and stores the
-    new head later (program counters SL0 / SL1 of a learner call, LApp0 / LApp1
-    of the loop); nothing excludes another Append in between (incomingMu only
-    serialises gossip calls: Head() calls and the sync loop append
-    concurrently).  A call preempted between load and store overwrites a newer
-    head with its older one: honest schedule, quiescent end, nothing pending,
-    no error, every head stored (Store head 20) - but the shim head,
+    Until 40dc6a8 syncStore.Append loaded its head, checked the list against it
+    and stored the new head later (program counters SL0 / SL1 of a learner call,
+    LApp0 / LApp1 of the loop) with nothing excluding another Append in between
+    (incomingMu only serialises gossip calls: Head() calls and the sync loop
+    append concurrently).  On the finer machine [run], which still has these
+    program counters, a call preempted between load and store overwrites a
+    newer head with its older one: honest schedule, quiescent end, nothing
+    pending, no error, every head stored (Store head 20) - but the shim head,
     State().Height and Syncer.Head() are 18 (Syncer.Head() was 20 before).
-    Replayed on the real code: harness/c03/straddle_test.go TestShimRaceWitness. *)
-Example C07_shim_lost_update_counterexample :
+    On the machine as of 40dc6a8 ([arun]: the Append is one step) the same events
+    end with shim head = Store head = Syncer.Head() = 20.  Real code: corpus case
+    append_lock of the C03/C07 checks; harness/c03/straddle_test.go
+    TestShimRaceWitness. *)
+Example C07_shim_lost_update_example :
   let tvf := fun _ _ : hdr => TVOk in
   let c0 := init_cfg 15 (crun wch 15 3) in
-  let es1 := [EHead (Some (wch 18))] ++ repeat (ET 0) 4                  (* Head() learns 18: inside Append, head 17 loaded, 18 not yet stored into the shim *)
+  let es1 := [EHead (Some (wch 18))] ++ repeat (ET 0) 4                  (* Head() learns 18: inside Append (finer machine: head 17 loaded, 18 not yet stored into the shim) *)
              ++ [EHead (Some (wch 18))] ++ repeat (ET 1) 7                (* three complete Head() calls learn 18, 19, 20 *)
              ++ [EHead (Some (wch 19))] ++ repeat (ET 2) 7
              ++ [EHead (Some (wch 20))] ++ repeat (ET 3) 7 in
   let es2 := repeat (ET 0) 4 in                                          (* the first call goes on *)
   let c1 := run 10%Z tvf c0 es1 in
   let c := run 10%Z tvf c0 (es1 ++ es2) in
+  let c' := arun 10%Z tvf c0 (es1 ++ es2) in
   h_height (local_head c1) = 20 /\
-  cx_view c = (20, 18, 18, false, [], LIdle, true, None, 0, true).
-Proof. vm_compute. split; reflexivity. Qed.
+  cx_view c = (20, 18, 18, false, [], LIdle, true, None, 0, true) /\
+  cx_view c' = (20, 20, 20, false, [], LIdle, true, None, 0, true).
+Proof. vm_compute. repeat split; reflexivity. Qed.
 
-Print Assumptions C07_reaches_target_partial.
+(** *** interleaved learner calls: the machine as of /repo 40dc6a8
+
+    [astep] is the small-step machine with syncStore.Append as ONE step (40dc6a8
+    holds a lock from loading the shim's head to the return of Store.Append);
+    gossip verifier calls and Head() calls are split at every other read and
+    write (incomingMu, pending.Head, the store head, the verdict, the Append,
+    the already-synced check, pending.Add, wantSync), the loop at every access.
+    Every run of [astep] is a run of the finer machine [step], goroutine by
+    goroutine: what Props/C03.v and the theorems above prove for every schedule
+    of [step] holds for [astep]. *)
+Theorem C07_atomic_append_machine_refines : forall drift tv (es : list event) (c : cfg),
+  exists es', arun drift tv c es = run drift tv c es' /\
+    (forall W : event -> Prop, W (EL GErr) -> (forall i, W (ET i)) -> Forall W es -> Forall W es').
+Proof. exact arun_run. Qed.
+
+(** EVERY schedule, arbitrary well-formed inputs, the finer machine (hence also
+    [astep]): a step that is enabled - the loop unless idle without trigger, a
+    learner call unless returned or waiting for incomingMu - strictly decreases
+    the measure [mu D E] as long as no new call is spawned and the getter's
+    answers stay below height D: no schedule runs forever, whatever the order,
+    with or without errors.  [bnd D E] holds of a configuration for
+    D = [Dof c], E = [Eof c] (heights in play; pending entries present or still
+    to come). *)
+Theorem C07_every_enabled_step_progresses : forall drift tv (tail : N) (D E : nat) (c : cfg) (e : event),
+  Inv tail c -> Sinv c -> bnd D E c -> wf_event tail e -> ans_ok D e -> enabled c e ->
+  (mu D E (step drift tv c e) < mu D E c)%nat /\ bnd D E (step drift tv c e).
+Proof. exact step_decreases. Qed.
+
+(** ... and when nothing is enabled the Syncer is quiescent: loop idle, no
+    trigger token, every learner call returned (a call waiting for incomingMu
+    implies a call holding it, which can move) *)
+Theorem C07_nothing_enabled_is_quiescent : forall (c : cfg),
+  Sinv c -> c_loop c <> LPanic -> ~ l_enabled c -> (forall i, ~ t_enabled i c) -> all_quiet c.
+Proof. exact stuck_quiet. Qed.
+
+(** EVERY schedule of [astep], arbitrary inputs: Syncer.Head() never moves
+    back, and at quiescence the shim's head (State().Height) is the Store's
+    head ([Ainv] is the invariant of [astep] runs, established by [Ainv_init]) *)
+Theorem C07_head_never_moves_back : forall drift tv (tail : N) (es : list event) (c : cfg),
+  Ainv tail c -> Tinv c -> Forall (wf_event tail) es ->
+  Ainv tail (arun drift tv c es) /\ Tinv (arun drift tv c es) /\ Lh c <= Lh (arun drift tv c es) /\
+  forall n, covered n c -> covered n (arun drift tv c es).
+Proof. exact Ainv_arun. Qed.
+
+Theorem C07_quiescent_shim_head_is_store_head : forall (tail : N) (c : cfg),
+  Ainv tail c -> all_quiet c -> hc c = rs_head (c_store c).
+Proof. exact quiet_shim_is_store. Qed.
+
+Section c07live.
+Variables (drift : Z) (tv : hdr -> hdr -> tvres) (tail : N) (ch : N -> hdr).
+Hypothesis Hch : forall n, h_height (ch n) = n.
+
+(** C07 for INTERLEAVED learner calls.
+    [es]: any history of [astep] events - gossip deliveries and Head() calls of
+    true chain headers spawned at any point (any clock, any type-level
+    verifier, any bifurcation verdict promoting chain headers), their steps and
+    the loop's steps in any order, range answers that are errors or lists of
+    chain headers ([wf_event], [hev1]).
+    [ds] (the drain): from then on no new call is spawned, every range request is
+    answered by a non-empty prefix of what was asked ([dans]), and every step
+    taken is enabled when it is taken ([drain]) - nothing else is assumed about
+    the order.  Then:
+    - [ds] is at most [mu (Dof c0) (Eof c0) c0] steps long (the bound, a function
+      of the configuration the drain starts from);
+    - no sync attempt fails during the drain (State().Error is cleared or left
+      as it was);
+    - when nothing is enabled any more ([stuck]: the schedule is maximal) the
+      Syncer is quiescent, and unless State().Error is still the one of an
+      attempt aborted BEFORE the drain: nothing is pending, Store head = shim
+      head = Syncer.Head() = [Lh c'], State finished without error, SyncWait
+      returns, the Store is the true chain tail..head; this head is at or above
+      Syncer.Head() at the start of the drain and above every header a learner
+      call in flight had adopted ([twork]) - the newest verified head. *)
+Theorem C07_reaches_target : forall (a : hdr) (l : list hdr) (es ds : list event),
+  consec (a :: l) -> Forall (good ch) (a :: l) -> h_height a = tail ->
+  Forall (fun e => wf_event tail e /\ hev1 ch e) es ->
+  let c0 := arun drift tv (init_cfg tail (a :: l)) es in
+  drain drift tv ch c0 ds ->
+  let c' := arun drift tv c0 ds in
+  let D := Dof c0 in let E := Eof c0 in
+  (length ds + mu D E c' <= mu D E c0)%nat /\
+  (ss_err (c_state c') = None \/ ss_err (c_state c') = ss_err (c_state c0)) /\
+  (stuck c' ->
+     all_quiet c' /\
+     (ss_err (c_state c') = None ->
+        reached ch (Lh c') c' /\ h_height (local_head c0) <= Lh c' /\
+        forall y, In y (flat_map twork (c_thr c0)) -> h_height y <= Lh c')).
+Proof. exact (reaches_target_interleaved drift tv tail ch Hch). Qed.
+
+(** the same as a run to quiescence under an explicit scheduler.  The only
+    thing asked of the scheduler ([sched_ok]): whenever something can move it
+    picks a step that can - some learner call's, or the loop's with the honest
+    getter's answer.  No fairness between goroutines is needed (every enabled
+    step makes progress): driving the machine for [mu] steps ends quiescent. *)
+Theorem C07_reaches_target_run_to_quiescence : forall (a : hdr) (l : list hdr) (es : list event) (sched : cfg -> event),
+  consec (a :: l) -> Forall (good ch) (a :: l) -> h_height a = tail ->
+  Forall (fun e => wf_event tail e /\ hev1 ch e) es -> sched_ok tail ch sched ->
+  let c0 := arun drift tv (init_cfg tail (a :: l)) es in
+  let c' := drive drift tv sched (mu (Dof c0) (Eof c0) c0) c0 in
+  all_quiet c' /\
+  (ss_err (c_state c') = None \/ ss_err (c_state c') = ss_err (c_state c0)) /\
+  (ss_err (c_state c') = None ->
+     reached ch (Lh c') c' /\ h_height (local_head c0) <= Lh c' /\
+     forall y, In y (flat_map twork (c_thr c0)) -> h_height y <= Lh c').
+Proof. exact (reaches_target_fair drift tv tail ch Hch). Qed.
+
+(** such schedulers exist *)
+Theorem C07_scheduler_exists : sched_ok tail ch (first_sched ch).
+Proof. exact (first_sched_ok tail ch Hch). Qed.
+
+End c07live.
+
+Print Assumptions C07_reaches_target_atomic_calls.
 Print Assumptions C07_gapped_pending.
 Print Assumptions C07_error_aborts_only_attempt.
 Print Assumptions C07_nothing_lost.
@@ -264,3 +380,11 @@ Print Assumptions C07_range_amount_never_exceeds.
 Print Assumptions C07_no_panic_any_schedule.
 Print Assumptions C07_head_never_below_store_head.
 Print Assumptions C07_quiescent_nothing_pending.
+Print Assumptions C07_atomic_append_machine_refines.
+Print Assumptions C07_every_enabled_step_progresses.
+Print Assumptions C07_nothing_enabled_is_quiescent.
+Print Assumptions C07_head_never_moves_back.
+Print Assumptions C07_quiescent_shim_head_is_store_head.
+Print Assumptions C07_reaches_target.
+Print Assumptions C07_reaches_target_run_to_quiescence.
+Print Assumptions C07_scheduler_exists.
